@@ -31,15 +31,29 @@ pub fn output_end(outp: &MuxOutput) -> u64 {
     outp.run.end_pos.unwrap_or_else(|| outp.sim.borrow().disk.len())
 }
 
+/// Hand the scenario's transient sink fault (single call or short outage, aimed by global
+/// stream-call number or at a stream call of one API call) to the simulator.
+pub fn plan_faults(sc: &MuxScenario, sim: &mut Sim) {
+    let Some((seq, f)) = sc.fault else { return };
+    let len = sc.fault_len.max(1);
+    match sc.fault_api {
+        Some((api, nth)) => sim.plan_api = Some((api, nth, f, len)),
+        None => {
+            for i in 0..len as u64 {
+                sim.plan.push((seq + i, f));
+            }
+        }
+    }
+}
+
 pub fn execute(sc: &MuxScenario, skip: Option<&[bool]>, st: &mut Stats) -> MuxOutput {
     let sim = Sim::shared(initial_disk(sc));
     sim.borrow_mut().set_transparent(sc.io.chunking, sc.io.intr_ppm, sc.io.io_seed);
-    if let Some(f) = sc.fault {
-        sim.borrow_mut().plan.push(f);
-    }
+    plan_faults(sc, &mut sim.borrow_mut());
     let run = run_mux(sc, &sim, skip);
     // a planned fault that never fired must not fire during the read-back
     sim.borrow_mut().plan.clear();
+    sim.borrow_mut().plan_api = None;
     {
         let s = sim.borrow();
         st.case_digest = mix(st.case_digest, s.digest);
@@ -572,6 +586,22 @@ pub fn shrink_mux(sc: &MuxScenario) -> Vec<MuxScenario> {
         }
         if c.len() > 3000 {
             break;
+        }
+    }
+    // a fault aimed at a stream call of write_end follows the first write_end of the shrunk
+    // history; simpler fault shapes are candidates too
+    for x in c.iter_mut() {
+        if let Some((_, nth)) = x.fault_api {
+            let end_api = x.ops.iter().position(|o| matches!(o, Op::End)).map(|i| i as u32 + 1).unwrap_or(0);
+            x.fault_api = Some((end_api, nth));
+        }
+    }
+    if sc.fault_len > 1 {
+        c.push(MuxScenario { fault_len: sc.fault_len - 1, ..sc.clone() });
+    }
+    if let Some((api, nth)) = sc.fault_api {
+        if nth > 0 {
+            c.push(MuxScenario { fault_api: Some((api, nth - 1)), ..sc.clone() });
         }
     }
     c
